@@ -304,6 +304,16 @@ def gamma3(tier, seed):
             for of_ in (False, True):
                 pat = [{"mov": [{op: kids}, "c"]}, "d"]
                 out.append({"id": f"g3/op_hexh/{op}/{kids}/o{int(of_)}", "doc": doc_of(pat, False, of_), "pattern": [{"mov": [{op: rew}, "c"]}, "d"], "feature": "op_hexh_rewritten"})
+    # integer-valued operand names (YAML ints, 0 included) as direct children of operand-level operators: same as the string
+    for op in OPS3:
+        for kids in ([0, 7], ["x", 0], [0, "x"], [10, 0, "x"]):
+            if op == "$and_any_order" and len(kids) > 2:
+                continue
+            strs = [str(k) for k in kids]
+            for tail in ([], ["c"]):
+                pat = [{"mov": [{op: kids}] + tail}, "d"]
+                out.append({"id": f"g3/op_int/{op}/{kids}/{tail}", "doc": doc_of(pat), "pattern": [{"mov": [{op: strs}] + tail}, "d"], "feature": "op_int_names"})
+    out.append({"id": "g3/op_int/nested", "doc": doc_of([{"mov": [{"$or": ["x", {"$and": [0, "y"]}]}, 0]}, "d"]), "pattern": [{"mov": [{"$or": ["x", {"$and": ["0", "y"]}]}, "0"]}, "d"], "feature": "op_int_names"})
     pat = [{"mov": [{"$and_any_order": ["c", {"$or": ["10h", "20h"]}]}]}, "d"]
     out.append({"id": "g3/op_hexh/nested", "doc": doc_of(pat), "pattern": [{"mov": [{"$and_any_order": ["c", {"$or": ["0x10", "0x20"]}]}]}, "d"], "feature": "op_hexh_rewritten"})
     for op1 in OPS3:
@@ -413,6 +423,20 @@ def gamma4(tier, seed):
     with_twin(out[2], out[2]["doc"]["pattern"])
     for t in out:
         t.setdefault("e2e_absent", True)
+    # "every argument X": an argument that uses capture groups of its own (X = "mov with two equal operands"). The groups are
+    # local to the argument (defined inside the negative look-ahead); captures that FOLLOW the $not keep their own numbers.
+    LD = ["a", "0x1", "0x10"]
+    CL = ("AEM", "EA", "NE")
+    out.append({"id": "g4/capt/local_pair", "doc": doc_of(["push", {"$not": [{"mov": ["&a", "&a"]}]}, "pop"]), "feature": "not_with_local_captures",
+                "capture_order": ["&a"], "env_dom": {}, "local_dom": {"&a": LD}, "lemmas": CL})
+    out.append({"id": "g4/capt/two_nots", "doc": doc_of(["push", {"$not": [{"mov": ["&a", "&a"]}]}, {"$not": [{"xor": ["&b", "&b"]}]}, "pop"]), "feature": "not_with_local_captures",
+                "capture_order": ["&a", "&b"], "env_dom": {}, "local_dom": {"&a": LD, "&b": LD}, "lemmas": CL})
+    out.append({"id": "g4/capt/then_outer_capture", "doc": doc_of([{"$not": [{"mov": ["&a", "&a"]}]}, {"push": ["&r"]}, {"pop": ["&r"]}]), "feature": "not_with_local_captures",
+                "capture_order": ["&a", "&r"], "env_dom": {"&r": LD}, "local_dom": {"&a": LD}, "lemmas": CL})
+    out.append({"id": "g4/capt/outer_then_local", "doc": doc_of([{"push": ["&r"]}, {"$not": [{"mov": ["&a", "&a"]}]}, {"pop": ["&r"]}]), "feature": "not_with_local_captures",
+                "capture_order": ["&r", "&a"], "env_dom": {"&r": LD}, "local_dom": {"&a": LD}, "lemmas": CL})
+    out.append({"id": "g4/capt/local_uses_outer", "doc": doc_of([{"push": ["&r"]}, {"$not": [{"mov": ["&a", "&r", "&a"]}]}, {"pop": ["&r"]}]), "feature": "not_with_local_captures",
+                "capture_order": ["&r", "&a"], "env_dom": {"&r": LD[:2]}, "local_dom": {"&a": LD}, "lemmas": CL})
     return out
 
 
